@@ -1998,3 +1998,329 @@ def name_index_boundary_stream(start_id=34000):
             ops.append('eenc %d 0 %s:%s:%d' % (e, hx(nm), hx(b'zzz'), sens))
             ops.append('pipe %d 1 %d' % (e, e))
     return ops
+
+
+# ====================================================================================================
+# round-6 additions
+# ====================================================================================================
+def _hs(fields):
+    return ' '.join('%s:%s:%d' % (hx(n), hx(v), int(s)) for n, v, s in fields)
+
+
+def copy_stream(g, start_id=36000):
+    """live Encoders / Decoders / HeaderTables copied with copy.deepcopy or a pickle round trip — with entries in the
+    table, with a size change pending, after a change was signalled and the size set back to the default — and then
+    BOTH objects go on (repeated blocks, evictions, references to old entries), each with its own copied peer"""
+    ops = []
+    rnd = g.rnd
+    i = start_id
+    warm = [(b'x-a', b'1', 0), (b'x-b', b'22', 0), (b'cookie', b'c' * 20, 0), (b'x-c', b'', 0)]
+    more = [(b'x-a', b'1', 0), (b'x-d', b'4', 0), (b'x-secret', b's', 1), (b'x-b', b'22', 0)]
+    for kind in ('deep', 'pickle'):
+        for scenario in ('plain', 'pending-lower', 'pending-raise', 'back-to-default', 'small-table', 'after-many'):
+            for huff in (0, 1):
+                i += 10
+                a, b = i, i + 1              # original pair, copied pair
+                ops.append('enew %d' % a); ops.append('dnew %d 1000000' % a); ops.append('dallow %d 65536' % a)
+                ops.append('eenc %d %d %s' % (a, huff, _hs(warm))); ops.append('pipe %d 1 %d' % (a, a))
+                if scenario == 'pending-lower':
+                    ops.append('esize %d 100' % a)
+                elif scenario == 'pending-raise':
+                    ops.append('esize %d 16384' % a)
+                elif scenario == 'back-to-default':
+                    ops.append('esize %d 40' % a); ops.append('eenc %d %d %s' % (a, huff, _hs(warm[:2]))); ops.append('pipe %d 1 %d' % (a, a))
+                    ops.append('esize %d 4096' % a)
+                elif scenario == 'small-table':
+                    ops.append('esize %d 120' % a); ops.append('eenc %d %d %s' % (a, huff, _hs(warm))); ops.append('pipe %d 1 %d' % (a, a))
+                elif scenario == 'after-many':
+                    for j in range(0, 60, 10):
+                        ops.append('eenc %d %d %s' % (a, huff, _hs([(b'k%02d' % q, b'v' * (q % 7), 0) for q in range(j, j + 10)])))
+                        ops.append('pipe %d 1 %d' % (a, a))
+                ops.append('ecopy %d %d %s' % (b, a, kind)); ops.append('dcopy %d %d %s' % (b, a, kind))
+                for rnd_ in range(3):
+                    for x in ((b, a) if rnd_ % 2 else (a, b)):
+                        ops.append('eenc %d %d %s' % (x, huff, _hs(more if rnd_ != 1 else warm)))
+                        ops.append('pipe %d %d %d' % (x, rnd_ % 2, x))
+                    if rnd_ == 0:
+                        ops.append('esize %d 64' % b)          # only on the copy
+                    if rnd_ == 1:
+                        ops.append('esize %d 200' % a)         # only on the original
+                # evict heavily on the copy, then reference on both
+                ops.append('eenc %d %d %s' % (b, huff, _hs([(b'big%d' % q, b'B' * 300, 0) for q in range(16)])))
+                ops.append('pipe %d 1 %d' % (b, b))
+                for x in (a, b):
+                    ops.append('eenc %d %d %s' % (x, huff, _hs(warm + more)))
+                    ops.append('pipe %d 1 %d' % (x, x))
+    # decoders copied on their own, then both fed blocks that evict (small non-zero sizes) and reference
+    for kind in ('deep', 'pickle'):
+        i += 10
+        a, b = i, i + 1
+        ops.append('dnew %d 1000000' % a); ops.append('dallow %d 16384' % a)
+        ops.append('ddec %d 1 %s' % (a, hx(b''.join(bytes([0x40, 2, 0x6b, 48 + q, 3]) + b'v%02d' % q for q in range(10)))))
+        ops.append('dcopy %d %d %s' % (b, a, kind))
+        for x in (a, b, a, b):
+            ops.append('ddec %d 1 %s' % (x, hx(bytes([0x40, 1, 0x7a, 1, 0x31]) + b'\xbe\xbf\xc0')))
+            ops.append('ddec %d 1 %s' % (x, hx(int_octets(80, 5, 0x20) + b'\xbe')))
+            ops.append('ddec %d 1 %s' % (x, hx(int_octets(4096, 5, 0x20) + bytes([0x40, 1, 0x79, 1, 0x32]) + b'\xbe\xbf')))
+    # HeaderTable objects
+    for kind in ('deep', 'pickle'):
+        i += 10
+        a, b = i, i + 1
+        ops.append('tnew %d' % a)
+        for q in range(6):
+            ops.append('tadd %d %s %s' % (a, hx(b'n%d' % q), hx(b'v' * q)))
+        ops.append('tcopy %d %d %s' % (b, a, kind))
+        for x in (a, b):
+            for idx in (62, 63, 66, 67, 68):
+                ops.append('tget %d %d' % (x, idx))
+            ops.append('tsearch %d %s %s' % (x, hx(b'n0'), hx(b'')))
+            ops.append('tsearch %d %s %s' % (x, hx(b'n5'), hx(b'vvvvv')))
+        ops.append('tadd %d %s %s' % (b, hx(b'only-copy'), hx(b'1')))
+        ops.append('tmax %d 70' % a)
+        for x in (a, b):
+            for idx in (62, 63, 64):
+                ops.append('tget %d %d' % (x, idx))
+            ops.append('tadd %d %s %s' % (x, hx(b'both'), hx(b'2')))
+            ops.append('tget %d 62' % x); ops.append('tget %d 63' % x)
+    return ops
+
+
+def eadd_stream(start_id=37000):
+    """Encoder.add((name, value), sensitive, huffman) called directly (it is public), every combination of the two
+    flags, on names that are new / in the static table / in the dynamic table; each result decoded by a peer"""
+    ops = []
+    e = start_id
+    ops.append('enew %d' % e); ops.append('dnew %d' % e)
+    fields = [(b'x-new', b'v'), (b'authorization', b'basic x'), (b':path', b'/secret'), (b'x-new', b'v'), (b'x-new', b'other'),
+              (b'cookie', b''), (b'', b''), (b':method', b'GET'), (b'x-k', b'\x00\xff')]
+    for n, v in fields:
+        for sens in (1, 0):
+            for huff in (0, 1):
+                ops.append('eadd %d %d %d %s %s' % (e, huff, sens, hx(n), hx(v)))
+                ops.append('pipe %d %d %d' % (e, huff, e))
+    ops.append('eenc %d 0 %s' % (e, _hs([(n, v, 0) for n, v in fields])))
+    ops.append('pipe %d 1 %d' % (e, e))
+    return ops
+
+
+def eev_stream(g, start_id=38000):
+    """a header generator that LOWERS header_table_size on the encoder it is being consumed by, between two of the
+    fields it yields — with nothing pending, with an update already pending, twice in one block, to the size in force;
+    the next blocks must open with what is owed"""
+    ops = []
+    e = start_id
+    f = lambda n, v: '2bb:%s:%s' % (hx(n), hx(v))
+    cases = [(None, ['!size=64']), (None, ['!size=100', '!size=50']), (200, ['!size=64']), (200, ['!size=200']), (None, ['!size=4096']),
+             (100, ['!size=100', '!size=40']), (None, ['!size=0']), (300, ['!size=0', '!size=0'])]
+    for pre, sizes in cases:
+        for pos in (0, 1, 2):
+            e += 1
+            ops.append('enew %d' % e); ops.append('dnew %d' % e)
+            ops.append('eenc %d 0 %s' % (e, _hs([(b'a', b'b', 0), (b'c', b'd' * 30, 0)]))); ops.append('pipe %d 1 %d' % (e, e))
+            if pre is not None:
+                ops.append('esize %d %d' % (e, pre))
+            fl = [f(b'e', b'f'), f(b'a', b'b')]
+            toks = fl[:pos] + [sizes[0]] + fl[pos:] + sizes[1:] + [f(b'g', b'h')]
+            ops.append('eev %d %d %s' % (e, pos % 2, ' '.join(toks))); ops.append('pipe %d 1 %d' % (e, e))
+            ops.append('eenc %d 0 %s' % (e, _hs([(b'g', b'h', 0), (b'i', b'j', 0)]))); ops.append('pipe %d 1 %d' % (e, e))
+            ops.append('eenc %d 0 %s' % (e, _hs([(b'i', b'j', 0)]))); ops.append('pipe %d 1 %d' % (e, e))
+    return ops
+
+
+def utf8_limit_stream(start_id=39000):
+    """text mode and the list limit: fields with multi-octet UTF-8 whose size in octets is above the limit while the
+    count of characters is not (and at the limit exactly); literal and indexed"""
+    ops = []
+    d = start_id
+    for ch in ('é', '€', '\U0001f600'):
+        u = ch.encode('utf-8')
+        for k in (1, 10, 100):
+            val = u * k
+            size = 32 + 1 + len(val)
+            for lim in (size, size - 1, 32 + 1 + k, 32 + 1 + k + 1, size - len(u) + 1):
+                for raw in (0, 1):
+                    d += 1
+                    ops.append('dnew %d %d' % (d, lim))
+                    ops.append('ddec %d %d %s' % (d, raw, hx(b'\x40\x01x' + int_octets(len(val), 7) + val)))
+                    ops.append('ddec %d %d be' % (d, raw))
+                    ops.append('ddec %d %d %s' % (d, raw, hx(b'\x00' + int_octets(len(val), 7) + val + b'\x00')))
+    return ops
+
+
+def update_then_limit_stream(start_id=40000):
+    """blocks that open with a table-size update, under list limits below / above / equal to the permitted table
+    size; limit 0 with an empty block and with a block of updates only"""
+    ops = []
+    d = start_id
+    three = b'\x82\x86\x84'           # 42 + 43 + 38 = 123
+    big = b'\x00\x01a' + int_octets(5000, 7) + b'v' * 5000      # 5033
+    for upd in (b'\x20', b'\x3f\xe1\x1f', b'\x3f\x45', b'\x20\x3f\xe1\x1f'):
+        for lim, blk in ((100, three), (123, three), (122, three), (10000, big), (5033, big), (5032, big), (4096, big), (4097, three), (0, b'')):
+            d += 1
+            ops.append('dnew %d %d' % (d, lim))
+            ops.append('ddec %d 1 %s' % (d, hx(upd + blk)))
+            ops.append('ddec %d 0 %s' % (d, hx(blk) if blk else '-'))
+    for lim in (0, 1, 31):
+        d += 1
+        ops.append('dnew %d %d' % (d, lim))
+        ops.append('ddec %d 1 -' % d); ops.append('ddec %d 0 -' % d); ops.append('ddec %d 1 20' % d); ops.append('ddec %d 0 3fe11f' % d)
+        ops.append('ddec %d 1 82' % d)
+    return ops
+
+
+def small_sizes_allowed_stream(start_id=41000):
+    """table sizes 0..33 announced by the peer and then the permitted maximum lowered below / to / above them, with an
+    empty block next; and, after the permitted maximum was lowered below the size in use, blocks WITHOUT an update whose
+    first octet is each kind of representation (every value of the three high bits)"""
+    ops = []
+    d = start_id
+    for u in (0, 1, 2, 17, 31, 32, 33):
+        for allowed in (u - 1, u, u + 1):
+            if allowed < 0:
+                continue
+            d += 1
+            ops.append('dnew %d' % d)
+            ops.append('ddec %d 1 %s' % (d, hx(int_octets(u, 5, 0x20))))
+            ops.append('dallow %d %d' % (d, allowed))
+            ops.append('ddec %d 1 -' % d)
+            ops.append('ddec %d 1 82' % d)
+    firsts = [b'\x82', b'\xa1', b'\xbe', b'\xe0', b'\xff\x00', b'\x60\x01v', b'\x7f\x00\x01v', b'\x40\x01a\x01b', b'\x00\x01a\x01b', b'\x10\x01a\x01b',
+              b'\x0f\x11\x01v', b'\x1f\x11\x01v', b'\x2f', b'\x20', b'\x3f\x01']
+    for low in (0, 100, 4095):
+        for blk in firsts:
+            d += 1
+            ops.append('dnew %d' % d)
+            ops.append('ddec %d 1 %s' % (d, hx(b'\x40\x03abc\x03xyz')))
+            ops.append('dallow %d %d' % (d, low))
+            ops.append('ddec %d 1 %s' % (d, hx(blk)))
+            ops.append('ddec %d 1 %s' % (d, hx(int_octets(low, 5, 0x20) + blk)))
+    return ops
+
+
+def evict_binary_stream(start_id=42000):
+    """entries whose name or value is not UTF-8 (0xff, 0xc3 alone, 0x80, NUL) evicted by insertions, by a shrink to a
+    small non-zero size and by an oversized insertion; on a HeaderTable, through a Decoder and through an Encoder;
+    with DEBUG logging on and off"""
+    ops = []
+    t = start_id
+    bins = [(b'\xff\xfe', b'v'), (b'k', b'\xc3'), (b'\x80name', b'\x00\xff'), (b'k2', b'caf\xe9')]
+    for log in ('', ' #log=debug'):
+        t += 1
+        ops.append('tnew %d%s' % (t, log)); ops.append('tmax %d 120%s' % (t, log))
+        for n, v in bins + bins:
+            ops.append('tadd %d %s %s%s' % (t, hx(n), hx(v), log))
+        ops.append('tmax %d 40%s' % (t, log)); ops.append('tadd %d %s %s%s' % (t, hx(b'x'), hx(b'y' * 200), log))
+        ops.append('dnew %d 100000%s' % (t, log))
+        ops.append('ddec %d 1 %s%s' % (t, hx(int_octets(120, 5, 0x20)), log))
+        for n, v in bins + bins:
+            ops.append('ddec %d 1 %s%s' % (t, hx(b'\x40' + int_octets(len(n), 7) + n + int_octets(len(v), 7) + v), log))
+        ops.append('ddec %d 1 %s%s' % (t, hx(int_octets(40, 5, 0x20)), log))
+        ops.append('ddec %d 1 %s%s' % (t, hx(b'\x40\x01x' + int_octets(200, 7) + b'y' * 200), log))
+        ops.append('enew %d%s' % (t, log)); ops.append('esize %d 120%s' % (t, log))
+        for n, v in bins + bins:
+            ops.append('eenc %d 0 %s:%s:0%s' % (t, hx(n), hx(v), log))
+        ops.append('esize %d 40%s' % (t, log)); ops.append('eenc %d 1 %s:%s:0%s' % (t, hx(b'x'), hx(b'y' * 200), log))
+    ops.append('dnew %d #log=off' % (t + 1))
+    return ops
+
+
+def allowed_down_up_stream(g, start_id=43000):
+    """a connection on which the application lowers the decoder's permitted table size below what the table holds and
+    raises it again BEFORE the next block arrives (the encoder never changes its size): nothing may be evicted"""
+    ops = []
+    rnd = g.rnd
+    c = start_id
+    for low in (0, 50, 100, 4095):
+        for order in ('down-up', 'down-up-down-up', 'dsize-first'):
+            c += 1
+            ops.append('enew %d' % c); ops.append('dnew %d' % c)
+            ops.append('eenc %d 0 %s' % (c, _hs([(b'a', b'1', 0), (b'b', b'2' * 40, 0), (b'c', b'3', 0)]))); ops.append('pipe %d 1 %d' % (c, c))
+            if order == 'dsize-first':
+                ops.append('dsize %d 8192' % c); ops.append('dallow %d 8192' % c)
+            ops.append('dallow %d %d' % (c, low)); ops.append('dallow %d 4096' % c)
+            if order == 'down-up-down-up':
+                ops.append('dallow %d %d' % (c, low)); ops.append('dallow %d 65536' % c)
+            if order == 'dsize-first':
+                ops.append('dallow %d 8192' % c)
+            ops.append('eenc %d 0 %s' % (c, _hs([(b'a', b'1', 0), (b'b', b'2' * 40, 0), (b'c', b'3', 0), (b'd', b'4', 0)]))); ops.append('pipe %d 1 %d' % (c, c))
+            ops.append('eenc %d 1 %s' % (c, _hs([(b'd', b'4', 0), (b'a', b'1', 0)]))); ops.append('pipe %d 0 %d' % (c, c))
+    # the application assigns the decoder's table size BEFORE it raises the permitted maximum (and the other way round)
+    for first in ('dsize', 'dallow'):
+        c += 1
+        ops.append('dnew %d 10000000' % c)
+        if first == 'dsize':
+            ops.append('dsize %d 8192' % c); ops.append('dallow %d 8192' % c)
+        else:
+            ops.append('dallow %d 8192' % c); ops.append('dsize %d 8192' % c)
+        blk = b''.join(b'\x40' + int_octets(4, 7) + b'n%03d' % q + int_octets(40, 7) + b'v' * 40 for q in range(100))     # 100 x 76 = 7600
+        ops.append('ddec %d 1 %s' % (c, hx(blk)))
+        ops.append('ddec %d 1 %s' % (c, hx(int_octets(62 + 99, 7, 0x80) + int_octets(62 + 60, 7, 0x80) + b'\xbe')))
+    return ops
+
+
+def whitespace_search_stream(start_id=44000):
+    """values that differ from a table entry's only by surrounding SP / HTAB (or case, or a trailing NUL), searched and
+    encoded: they are different fields"""
+    from refmodel import STATIC
+    ops = []
+    t = start_id
+    ops.append('tnew %d' % t)
+    ops.append('tadd %d %s %s' % (t, hx(b'x-token'), hx(b'abc')))
+    ops.append('tadd %d %s %s' % (t, hx(b'x-token'), hx(b'abc ')))
+    ops.append('tadd %d %s %s' % (t, hx(b'x-e'), hx(b'')))
+    variants = lambda v: [v + b' ', b' ' + v, v + b'\t', b'\t' + v + b' ', v + b'\x00', v.upper() if v.upper() != v else v + b'_', v + b'\r\n']
+    for n, v in list(STATIC) + [(b'x-token', b'abc'), (b'x-token', b'abc '), (b'x-e', b'')]:
+        for w in variants(v):
+            ops.append('tsearch %d %s %s' % (t, hx(n), hx(w)))
+        ops.append('tsearch %d %s %s' % (t, hx(n + b' '), hx(v)))
+        ops.append('tsearch %d %s %s' % (t, hx(n.upper()), hx(v)))
+    e = t + 1
+    ops.append('enew %d' % e); ops.append('dnew %d 1000000' % e)
+    allf = []
+    for n, v in list(STATIC)[:20] + [(b'x-token', b'abc')]:
+        allf += [(n, v, 0)] + [(n, w, 0) for w in variants(v)[:4]]
+    for k in range(0, len(allf), 5):
+        ops.append('eenc %d %d %s' % (e, (k // 5) % 2, _hs(allf[k:k + 5]))); ops.append('pipe %d 1 %d' % (e, e))
+    return ops
+
+
+def static_names_other_values_stream(start_id=45000):
+    """every static NAME with an empty value and with a value the static table does not have, each sent twice (the
+    second time it equals a dynamic entry and must be a single index), sensitive variants in between"""
+    from refmodel import STATIC
+    ops = []
+    e = start_id
+    names = []
+    for n, _ in STATIC:
+        if n not in names:
+            names.append(n)
+    for huff in (0, 1):
+        e += 1
+        ops.append('enew %d' % e); ops.append('dnew %d 1000000' % e); ops.append('dallow %d 65536' % e); ops.append('esize %d 65536' % e)
+        for k in range(0, len(names), 6):
+            chunk = names[k:k + 6]
+            ops.append('eenc %d %d %s' % (e, huff, _hs([(n, b'', 0) for n in chunk] + [(n, b'zz', 0) for n in chunk]))); ops.append('pipe %d 1 %d' % (e, e))
+            ops.append('eenc %d %d %s' % (e, huff, _hs([(n, b'', 1) for n in chunk[:2]] + [(n, b'', 0) for n in chunk] + [(n, b'zz', 0) for n in chunk]))); ops.append('pipe %d 1 %d' % (e, e))
+    return ops
+
+
+def cross_encoder_sensitive_stream(start_id=46000):
+    """several Encoders in one process: a name enters ONE encoder's dynamic table as an ordinary field, then the same
+    sensitive (name, value) is sent on that encoder and on others (fresh, or with a different table): each must use
+    its OWN table"""
+    ops = []
+    e = start_id
+    ids = [e + 1, e + 2, e + 3]
+    for x in ids:
+        ops.append('enew %d' % x); ops.append('dnew %d' % x)
+    ops.append('eenc %d 0 %s' % (ids[0], _hs([(b'x-api-key', b'v1', 0)]))); ops.append('pipe %d 1 %d' % (ids[0], ids[0]))
+    ops.append('eenc %d 0 %s' % (ids[1], _hs([(b'x-other', b'o', 0), (b'x-more', b'm', 0), (b'x-api-key', b'v2', 0)]))); ops.append('pipe %d 1 %d' % (ids[1], ids[1]))
+    for huff in (0, 1):
+        for x in ids:
+            ops.append('eenc %d %d %s' % (x, huff, _hs([(b'x-api-key', b'secret', 1)]))); ops.append('pipe %d 1 %d' % (x, x))
+        for x in reversed(ids):
+            ops.append('eenc %d %d %s' % (x, huff, _hs([(b'x-api-key', b'secret', 1), (b'x-api-key', b'secret', 0)]))); ops.append('pipe %d 1 %d' % (x, x))
+    x = e + 4
+    ops.append('enew %d' % x); ops.append('dnew %d' % x)
+    ops.append('eenc %d 1 %s' % (x, _hs([(b'x-api-key', b'secret', 1)]))); ops.append('pipe %d 1 %d' % (x, x))
+    return ops
